@@ -11,10 +11,18 @@ Stream `n2e-history` ("convert, overwrite the named field, convert again on the 
          public API (nodal_data.overwrite with / without ids, set_attribute_data(allow_overwrite=True)) and converted by
          name again on the same object; the second result must be the mean of the NEW values (oracle) and equal the
          model's exact-rational evaluation on the new values (tie).
+Stream `e2n-sequence` (inside the quantifier, reported through `fail`): several conversions on ONE object REUSING the same argument
+         objects (incidence= in every sparse format x dtype, or the object's own cached matrix; weight= array; data arrays), on graded
+         meshes with clearly unequal element sizes.  Each call: the clauses (incl. the weights themselves, recovered with indicator
+         fields: weight ratio = size ratio, equal shares), equality with the same call on fresh arguments / a fresh object, the model
+         history `e2nHistory` (c14.hist).  Every argument of every call (all streams) is snapshotted before and compared bit-exactly
+         after the call: the model conversion is a function and returns its arguments unchanged (C14_call_returns_arguments,
+         C14_history_fresh); C14_inplace_counterexample shows what goes wrong otherwise (weights ~ size^2 on the second call).
 """
 from fractions import Fraction as F
 
 import numpy as np
+import scipy.sparse as sp
 
 from . import common as C
 from . import meshgen as G
@@ -23,9 +31,15 @@ from . import c11 as K
 PROP = 'C14'
 LEAN_MODULES = ['Femio.Props.C14']
 THEOREMS = ['C14_mean_of_nodes', 'C14_mean_of_nodes_unknown_id', 'C14_affine_at_centroid', 'C14_mean_row_stochastic',
-            'C14_incidence_of_mesh', 'C14_constants', 'C14_bounds', 'C14_weights_prop_size', 'C14_effective_colsum', 'C14_effective_total']
+            'C14_incidence_of_mesh', 'C14_constants', 'C14_bounds', 'C14_weights_prop_size', 'C14_effective_colsum', 'C14_effective_total',
+            'C14_call_returns_arguments', 'C14_history_fresh', 'C14_history_value', 'C14_inplace_counterexample']
 PARTIAL = ['order1_only=True / an explicit incidence= matrix: modelled for weight=False (e2nMean / e2nEffective over Femio.C13.incidenceOpt true, rows = order1Nodes; the C14 theorems are stated for an arbitrary Boolean incidence relation and cover it); with metric weights it is exercised by the oracle only',
-           'convert_nodal2elemental without calc_average (plain gather / ravel) is covered by the gather lemma only']
+           'convert_nodal2elemental without calc_average (plain gather / ravel) is covered by the gather lemma only',
+           'histories (C14_history_fresh / C14_history_value): the model call returns its argument objects unchanged BY DEFINITION; that '
+           'femio does the same is not proved but tied on every call (bit-exact snapshot of every argument before / after) and on every '
+           'sequence (the arguments returned by e2nHistory vs the live objects); the history model covers elemental -> nodal calls sharing '
+           'the incidence object - the stored `metric` and the lru-cached incidence matrix of the object are covered by the comparison '
+           'with fresh objects only']
 RULE = ('seeded meshes (tri, quad, tri+quad, tet, tet2, hex, prism, pyr, hex+prism+pyr; affine / jittered; voids; unreferenced '
         'nodes; ids dense / sparse / large / huge / prefix-like; storage ascending / descending / shuffled; type blocks '
         'shuffled) x field widths 1-6 (and 1-D) with dyadic / integer / constant / affine / indicator values x '
@@ -38,6 +52,14 @@ RULE = ('seeded meshes (tri, quad, tri+quad, tet, tet2, hex, prism, pyr, hex+pri
         'cells) x all e2n conversions (explicit weights scaled by s^d; every 4th mesh with incidence= the mesh\'s own incidence '
         'matrix) + n2e of an affine field; stream `repeated-nodes`: hex / quad meshes with a random subset of elements collapsed by '
         'repeating node ids (wedge, pyramid, triangle) x {effective, mean with False / explicit / implicit weights}; '
+        'stream `e2n-sequence`: generator meshes GRADED by a projective map (element sizes differ by factors up to ~40) x the '
+        'documented incidence= argument {absent, the object\'s cached matrix, own copy in csr / csc / coo x bool / int64 / float64} x '
+        'sequences of 2-5 conversions on ONE object REUSING the same incidence / weight (float64 or int64) / data objects: every ordered '
+        'pair of {mean implicit, mean explicit, mean False, effective} as the first two calls, random tail, nodal->elemental in between; '
+        'indicator fields recover the weight matrix itself (non-negative, support, row sums, weight ratio = size ratio; effective: equal '
+        'shares, column sums); every call is also compared with the same call on freshly built arguments and a freshly built object and '
+        'with the model history (c14.hist); every argument object of every call of every stream is snapshotted before and compared '
+        'bit-exactly after the call; '
         'distinct = distinct (mesh, conversion, weights, field) content')
 ASSUMPTIONS = [
     'elements have positive metric and every node used by the laws touches an element (the row of an unreferenced node is an '
@@ -55,6 +77,14 @@ ASSUMPTIONS = [
     'hex"), counted separately; nodal -> elemental is not run on them ("mean of its own nodes" is ambiguous with a repeated node)',
     'float arithmetic: results agree with the exact rational value within 1e-9 * max|x| (2e-5 * max|x| when the implicit '
     'weights come from the float32 centroid kernels)',
+    'histories: the statement is read for every call, not only for the first call on a fresh object - re-using the same incidence= / '
+    'weight= / data objects for several conversions on one object is the documented purpose of the incidence= argument and inside the '
+    'quantifier; a call whose result differs by more than twice the tolerance from the same call with equal fresh arguments violates '
+    'the clause in one of the two calls and is reported (`...:depends-on-earlier-calls`).  A modified argument alone is reported as a '
+    'broken correspondence (the model returns its arguments unchanged); the clause it breaks is reported on the next call of the '
+    'sequence (the sequence is extended by three calls when the modification happens in its last call)',
+    'incidence= is given as a scipy.sparse MATRIX (csr / csc / coo; bool / int64 / float64) holding the Boolean incidence (stored value 1); '
+    'float32 matrices, sparse arrays (csr_array) and dense arrays are not used',
 ]
 TRUSTED = ['C14: for shell meshes the implicit weights (areas, irrational) are taken from the real calculate_element_metrics and '
            'passed to the model as explicit weights; their correctness is C11\'s tie']
@@ -138,6 +168,98 @@ def true_metrics(m):
     return out
 
 
+
+# ------------------------------------------------------------------------------------------ caller-supplied arguments
+# Python passes the data arrays, the `weight=` array and the `incidence=` matrix BY REFERENCE.  The model conversion is a
+# function: it returns a value and leaves its arguments alone (Model/Convert.lean `e2nCall` / `C14_history_fresh`).  Every
+# argument handed to femio is therefore snapshotted before the call and compared bit-exactly afterwards; a difference is a
+# broken correspondence (`argument modified`).  What the property says about it is observed on the NEXT call that uses the
+# same object (stream `e2n-sequence`), where the modified argument breaks a clause.
+
+ARG_EVENTS = []      # (where, argument, 'value' | 'representation', detail): filled by Watch.check, drained by run()
+
+
+def _canon_sparse(a):
+    """(row, col, data) of the matrix VALUE: duplicates summed, explicit zeros dropped, sorted by (row, col)"""
+    c = sp.coo_matrix(a, copy=True)
+    c.sum_duplicates()
+    c.eliminate_zeros()
+    o = np.lexsort((c.col, c.row))
+    return c.row[o].astype(np.int64), c.col[o].astype(np.int64), np.asarray(c.data)[o]
+
+
+def snap_arg(a):
+    """bit-exact snapshot of one argument object (numpy array or scipy sparse matrix)"""
+    if sp.issparse(a):
+        if a.format in ('csr', 'csc', 'bsr'):
+            parts = (a.data, a.indices, a.indptr)
+        elif a.format == 'coo':
+            parts = (a.data, a.row, a.col)
+        else:
+            parts = ()
+        return {'kind': 'sparse', 'meta': (a.format, str(a.dtype), tuple(a.shape)),
+                'raw': tuple((str(np.asarray(p_).dtype), np.asarray(p_).tobytes()) for p_ in parts), 'canon': _canon_sparse(a)}
+    a = np.asarray(a)
+    return {'kind': 'array', 'meta': (str(a.dtype), tuple(a.shape)), 'raw': a.tobytes(), 'copy': a.copy()}
+
+
+def diff_arg(s0, s1):
+    """None | ('value' | 'representation', detail)"""
+    if s0['meta'] != s1['meta']:
+        return 'value', {'before': list(map(str, s0['meta'])), 'after': list(map(str, s1['meta']))}
+    if s0['kind'] == 'array':
+        if s0['raw'] == s1['raw']:
+            return None
+        a, b = s0['copy'].ravel(), s1['copy'].ravel()
+        bad = [k for k in range(len(a)) if a[k:k + 1].tobytes() != b[k:k + 1].tobytes()]
+        return 'value', {'entries_changed': len(bad), 'first': {'flat_index': bad[0], 'before': a[bad[0]].item(), 'after': b[bad[0]].item()}}
+    (r0, c0, d0), (r1, c1, d1) = s0['canon'], s1['canon']
+    if len(r0) != len(r1) or not (np.array_equal(r0, r1) and np.array_equal(c0, c1)):
+        return 'value', {'stored_entries_before': len(r0), 'stored_entries_after': len(r1), 'pattern_changed': True}
+    if d0.tobytes() != d1.tobytes():
+        bad = [k for k in range(len(d0)) if d0[k:k + 1].tobytes() != d1[k:k + 1].tobytes()]
+        return 'value', {'entries_changed': len(bad), 'first': {'row': int(r0[bad[0]]), 'col': int(c0[bad[0]]),
+                                                                'before': d0[bad[0]].item(), 'after': d1[bad[0]].item()}}
+    if s0['raw'] != s1['raw']:
+        return 'representation', {}
+    return None
+
+
+class Watch:
+    """snapshot of the argument objects of a call (or of a sequence of calls); check() compares the live objects with it"""
+
+    def __init__(self, where, **args):
+        self.where = where
+        self.args = {k: v for k, v in args.items() if isinstance(v, np.ndarray) or sp.issparse(v)}
+        self.snaps = {k: snap_arg(v) for k, v in self.args.items()}
+
+    def check(self, when=''):
+        out = []
+        for k, v in self.args.items():
+            now = snap_arg(v)
+            d = diff_arg(self.snaps[k], now)
+            if d is not None:
+                desc = k + ('' if not sp.issparse(v) and not self.snaps[k]['kind'] == 'sparse'
+                            else f"[{self.snaps[k]['meta'][0]}:{self.snaps[k]['meta'][1]}]")
+                ev = (self.where, desc, d[0], dict(d[1], when=when))
+                ARG_EVENTS.append(ev)
+                out.append(ev)
+                self.snaps[k] = now          # report every modification once
+        return out
+
+
+def drain_arg_events(ctx, case):
+    """arguments modified by a call: a broken correspondence (the model op returns its arguments unchanged)"""
+    evs = list(ARG_EVENTS)
+    del ARG_EVENTS[:]
+    for where, arg, kind, detail in evs:
+        ctx.count(f'argument-{"modified" if kind == "value" else "representation-changed"}:{where}:{arg}')
+        if kind == 'value':
+            ctx.disagree(f'{where}: the call modified its caller-supplied argument `{arg}` (model: the conversion is a function, '
+                         'its arguments are returned unchanged)', case, detail, 'unchanged')
+    return evs
+
+
 # ------------------------------------------------------------------------------------------ nodal -> elemental
 
 def check_n2e(m, rows, affine=None, one_d=False, int_dtype=False):
@@ -145,10 +267,13 @@ def check_n2e(m, rows, affine=None, one_d=False, int_dtype=False):
     fd = K.to_fem(m)
     width = len(rows[0])
     x = as_array(rows, one_d, int_dtype)
+    w_ = Watch('convert_nodal2elemental', data=x)
     try:
         r = G.quiet(fd.convert_nodal2elemental, x, calc_average=True)
     except ValueError as e:
         return [], None, 'value_error:' + str(e)[:60]
+    finally:
+        w_.check()
     r = np.asarray(r, float).reshape(len(fd.elements.ids), -1)
     val = {i: rows[k] for k, (i, _) in enumerate(m['nodes'])}
     pos = dict(m['nodes'])
@@ -234,10 +359,12 @@ def check_n2e_history(m, rows1, rows2, how, affine2=None, name='T'):
     x1, x2 = as_array(rows1), as_array(rows2)
     nids = np.array([i for i, _ in m['nodes']])
     G.quiet(fd.nodal_data.update_data, nids, {name: x1})
+    w_ = Watch('convert_nodal2elemental(by name)', registered_data=x1)
     try:
         r1 = G.quiet(fd.convert_nodal2elemental, name, calc_average=True)
     except ValueError as e:
         return [], None, None, 'value_error:' + str(e)[:60]
+    w_.check('after the first conversion by name')
     r1 = np.array(r1, dtype=float).reshape(len(fd.elements.ids), -1)       # copy: taken before the overwrite
     if how == 'overwrite':
         G.quiet(fd.nodal_data.overwrite, name, x2)
@@ -247,8 +374,10 @@ def check_n2e_history(m, rows1, rows2, how, affine2=None, name='T'):
         G.quiet(fd.nodal_data.set_attribute_data, name, x2, allow_overwrite=True)
     else:
         raise ValueError(how)
+    w_ = Watch('convert_nodal2elemental(by name)', new_data=x2)        # (snapshot taken AFTER the overwrite: only the conversion is watched)
     r2 = G.quiet(fd.convert_nodal2elemental, name, calc_average=True)
     r2 = np.array(r2, dtype=float).reshape(len(fd.elements.ids), -1)
+    w_.check('after the conversion by name that follows the overwrite')
     ids = [int(i) for i in fd.elements.ids]
     fails = n2e_laws(m, ids, r1, rows1, None, 'first conversion of the named field')
     fails += n2e_laws(m, ids, r2, rows2, affine2, f'conversion by name after the named field was overwritten [{how}]')
@@ -268,20 +397,33 @@ def run_e2n(m, rows, mode, wkind, weights, one_d=False, incidence=None):
         kw['weight'] = False
     elif wkind == 'explicit':
         kw['weight'] = np.array([[float(w)] for w in weights], dtype=float)
-    with np.errstate(all='ignore'):
-        r = G.quiet(fd.convert_elemental2nodal, x, mode=mode, **kw)
+    w_ = Watch('convert_elemental2nodal', data=x, weight=kw.get('weight'), incidence=kw.get('incidence'))
+    try:
+        with np.errstate(all='ignore'):
+            r = G.quiet(fd.convert_elemental2nodal, x, mode=mode, **kw)
+    finally:
+        w_.check(f'mode={mode} weight={wkind}')
     return np.asarray(r, float).reshape(len(m['nodes']), -1)
 
 
-def check_e2n(m, rows, mode, wkind, weights, one_d=False, incidence=None):
+def check_e2n(m, rows, mode, wkind, weights, one_d=False, incidence=None, cols=None):
     """oracle on the real API: the laws of the property"""
-    fl = flat_elems(m)
-    ne, nn = len(fl), len(m['nodes'])
-    width = len(rows[0])
     try:
         r = run_e2n(m, rows, mode, wkind, weights, one_d, incidence)
     except NotImplementedError as e:
         return [], None, 'not_implemented:' + str(e)[:40]
+    return e2n_laws(m, rows, mode, wkind, weights, r, cols=cols), r, None
+
+
+def e2n_laws(m, rows, mode, wkind, weights, r, sizes=None, cols=None, metric_weights=False):
+    """the clauses of the property for ONE result array `r` (n_nodes x width) of the elemental field `rows`.
+    sizes: element id -> size for the implicit weights (default: true_metrics(m), which calls femio);
+    cols: if the field consists of indicator columns (column c = indicator of the element at flattened position cols[c]) the
+    result IS the weight matrix restricted to these columns and the clauses are also checked weight by weight;
+    metric_weights: the explicit weights are element metrics computed by femio (float32 kernels for hex / prism / pyr)"""
+    fl = flat_elems(m)
+    ne, nn = len(fl), len(m['nodes'])
+    width = len(rows[0])
     # incidence from the definition
     touch = {i: [] for i, _ in m['nodes']}
     for j, (e, t, c) in enumerate(fl):
@@ -289,10 +431,12 @@ def check_e2n(m, rows, mode, wkind, weights, one_d=False, incidence=None):
             touch[n].append(j)
     node_ids = [i for i, _ in m['nodes']]
     sc = max([1.0] + [abs(float(v)) for row in rows for v in row])
-    implicit32 = wkind == 'implicit' and any(t in ('hex', 'prism', 'pyr') for t in m['blocks'])
+    implicit32 = (wkind == 'implicit' or (metric_weights and wkind == 'explicit')) and any(t in ('hex', 'prism', 'pyr') for t in m['blocks'])
     tol = (2e-5 if implicit32 else TOL) * sc
     fails = []
     xs = [[float(v) for v in row] for row in rows]
+    if r.shape != (nn, width):
+        return [('e2n:shape', f'result has shape {tuple(r.shape)} for {nn} nodes and a field of width {width}', {'shape': list(r.shape)})]
     if mode == 'mean':
         # sizes the weights must be proportional to
         if wkind == 'false':
@@ -300,8 +444,12 @@ def check_e2n(m, rows, mode, wkind, weights, one_d=False, incidence=None):
         elif wkind == 'explicit':
             size = [float(w) for w in weights]
         else:
-            tm = true_metrics(m)
+            tm = sizes if sizes is not None else true_metrics(m)
             size = [tm[e] for e, _, _ in fl]
+        if cols is not None:
+            fails += mean_weight_laws(node_ids, touch, size, r, cols, tol, wkind)
+            if fails:
+                return fails
         for k, i in enumerate(node_ids):
             js = touch[i]
             if not js:
@@ -311,7 +459,7 @@ def check_e2n(m, rows, mode, wkind, weights, one_d=False, incidence=None):
                 if not (min(vals) - tol <= r[k, w] <= max(vals) + tol):
                     fails.append(('e2n-mean:bounds', f'node {i}: result outside the range of the elements touching it',
                                   {'node': i, 'column': w, 'got': float(r[k, w]), 'range': [min(vals), max(vals)]}))
-                    return fails, r, None
+                    return fails
                 den = sum(size[j] for j in js)
                 want = sum(size[j] * xs[j][w] for j in js) / den
                 if not abs(r[k, w] - want) <= tol:
@@ -320,13 +468,17 @@ def check_e2n(m, rows, mode, wkind, weights, one_d=False, incidence=None):
                         sig = 'mixed-binding:e2n-implicit-weight'
                     fails.append((sig, f'node {i}: result is not the size-weighted mean of the touching elements '
                                   f'(weights {wkind})', {'node': i, 'column': w, 'got': float(r[k, w]), 'expected': want}))
-                    return fails, r, None
+                    return fails
     else:
         tot_in = [sum(xs[j][w] for j in range(ne)) for w in range(width)]
         tot_out = r.sum(axis=0)
         if not all(abs(a - b) <= tol * max(1, ne) for a, b in zip(tot_in, tot_out)):
             fails.append(('e2n-effective:total', 'grand total not conserved', {'in': tot_in, 'out': tot_out.tolist()}))
-            return fails, r, None
+            return fails
+        if cols is not None:
+            fails += effective_weight_laws(node_ids, touch, r, cols, tol)
+            if fails:
+                return fails
         share = [1.0 / len(dict.fromkeys(c)) for _, _, c in fl]
         for k, i in enumerate(node_ids):
             for w in range(width):
@@ -334,8 +486,60 @@ def check_e2n(m, rows, mode, wkind, weights, one_d=False, incidence=None):
                 if not abs(r[k, w] - want) <= tol:
                     fails.append(('e2n-effective:equal-shares', f'node {i}: does not receive an equal share of each of its elements',
                                   {'node': i, 'column': w, 'got': float(r[k, w]), 'expected': want}))
-                    return fails, r, None
-    return fails, r, None
+                    return fails
+    return fails
+
+
+def mean_weight_laws(node_ids, touch, size, W, cols, tol, wkind):
+    """'mean' clauses stated on the weights themselves; W[k, c] = weight of the element at position cols[c] at node k
+    (recovered with indicator fields): non-negative, zero for elements not touching the node, summing to one, and
+    weight_j : weight_j' = size_j : size_j' for any two touching elements"""
+    col_of = {j: c for c, j in enumerate(cols)}
+    for k, i in enumerate(node_ids):
+        js = touch[i]
+        if not js:
+            continue
+        for c, j in enumerate(cols):
+            if W[k, c] < -tol:
+                return [('e2n-mean:negative-weight', f'node {i}: negative weight for the element at position {j}',
+                         {'node': i, 'element_position': j, 'weight': float(W[k, c])})]
+            if j not in js and abs(W[k, c]) > tol:
+                return [('e2n-mean:weight-on-non-touching-element', f'node {i}: non-zero weight for an element that does not touch it',
+                         {'node': i, 'element_position': j, 'weight': float(W[k, c])})]
+        got = [j for j in js if j in col_of]
+        if len(got) == len(js):
+            tot = sum(W[k, col_of[j]] for j in js)
+            if not abs(tot - 1) <= tol * len(js):
+                return [('e2n-mean:weights-do-not-sum-to-one', f'node {i}: the weights of the touching elements sum to {tot!r}',
+                         {'node': i, 'sum': float(tot)})]
+        for a, b in zip(got, got[1:]):
+            wa, wb = W[k, col_of[a]], W[k, col_of[b]]
+            if not abs(wa * size[b] - wb * size[a]) <= tol * (abs(size[a]) + abs(size[b])):
+                return [('e2n-mean:weight-ratio-not-size-ratio',
+                         f'node {i}: the weights of two touching elements are not in the ratio of their sizes (weights {wkind})',
+                         {'node': i, 'element_positions': [a, b], 'weights': [float(wa), float(wb)], 'sizes': [size[a], size[b]],
+                          'weight_ratio': float(wa / wb) if wb else None, 'size_ratio': size[a] / size[b] if size[b] else None})]
+    return []
+
+
+def effective_weight_laws(node_ids, touch, W, cols, tol):
+    """'effective' clauses on the weights: every node of an element receives the same share, the shares of one element sum
+    to one, other nodes receive nothing"""
+    for c, j in enumerate(cols):
+        own = [k for k, i in enumerate(node_ids) if j in touch[i]]
+        tot = float(W[:, c].sum())
+        if not abs(tot - 1) <= tol * max(1, len(node_ids)):
+            return [('e2n-effective:shares-do-not-sum-to-one', f'the shares of the element at position {j} sum to {tot!r}',
+                     {'element_position': j, 'sum': tot})]
+        for k, i in enumerate(node_ids):
+            if k not in own and abs(W[k, c]) > tol:
+                return [('e2n-effective:share-to-foreign-node', f'node {i} receives a share of an element it does not belong to',
+                         {'node': i, 'element_position': j, 'share': float(W[k, c])})]
+        sh = [float(W[k, c]) for k in own]
+        if sh and max(sh) - min(sh) > tol:
+            return [('e2n-effective:unequal-shares', f'the nodes of the element at position {j} do not receive equal shares',
+                     {'element_position': j, 'shares': sh})]
+    return []
 
 
 def tie_e2n(ctx, m, rows, mode, wkind, weights, real, case):
@@ -383,9 +587,12 @@ def check_order1(m, rows, explicit=False):
             if explicit:
                 type(fd).calculate_incidence_matrix.cache_clear()
                 inc = G.quiet(fd.calculate_incidence_matrix, order1_only=True)
+                w_ = Watch('convert_elemental2nodal(first-order incidence=)', data=x, incidence=inc)
                 r = np.asarray(G.quiet(fd.convert_elemental2nodal, x, mode=mode, weight=False, incidence=inc), float)
             else:
+                w_ = Watch('convert_elemental2nodal(order1_only=True)', data=x)
                 r = np.asarray(G.quiet(fd.convert_elemental2nodal, x, mode=mode, order1_only=True, weight=False), float)
+            w_.check(f'mode={mode}')
         ids = [i for i, _ in m['nodes'] if i in corner]
         if len(r) != len(ids):
             # unreferenced nodes are also "first order" for femio's filter: accept rows for all non-mid nodes
@@ -472,11 +679,13 @@ def e2n_block(ctx, rng, m, mj, k, shared, stream=None, wscale=1, tie=True, combo
         width = rng.randint(1, 6)
         style = rng.choice(['dyadic', 'int', 'const', 'indicator'])
         one_d = width == 1 and rng.random() < .3
+        cols = None
         if style == 'indicator':
             width = min(ne, 6)
             js = rng.sample(range(ne), width)
             fld = [[F(int(j == jj)) for jj in js] for j in range(ne)]
             one_d = False
+            cols = list(js)
         else:
             fld = gen_field(rng, ne, width, style)
         weights = [F(rng.randint(1, 64), 8) * wscale for _ in range(ne)] if wkind == 'explicit' else None
@@ -490,16 +699,19 @@ def e2n_block(ctx, rng, m, mj, k, shared, stream=None, wscale=1, tie=True, combo
             case['stream'] = stream
         if incidence is not None:
             case['incidence'] = incidence
-        fails, real, err = check_e2n(m, fld, mode, wk, weights, one_d, incidence)
+        if cols is not None:
+            case['indicator_cols'] = cols
+        fails, real, err = check_e2n(m, fld, mode, wk, weights, one_d, incidence, cols)
         ctx.case(tag + ('e2n', k, mode, wk, width, style),
                  sample={'check': 'e2n', 'mesh': G.describe(m), 'mode': mode, 'weights': wk, 'width': width, 'field': style}
                  if 2 <= len(ctx.samples) < 5 else None, nontrivial=shared)
         ctx.count(f'e2n:{mode}:{wk}:' + (err.split(':')[0] if err else 'ok') + ('' if stream is None else ':' + stream))
         for sig, what, obs in fails:
             ctx.fail(sig, what, case, obs)
+        small = {k_: v for k_, v in case.items() if k_ != 'mesh'} | {'mesh': G.describe(m)}
+        drain_arg_events(ctx, small)
         if real is None or ctx.driver is None or not tie:
             continue
-        small = {k_: v for k_, v in case.items() if k_ != 'mesh'} | {'mesh': G.describe(m)}
         if mode == 'effective':
             tie_e2n(ctx, m, fld, mode, 'false', None, real, small)
         elif wkind == 'implicit' and (K.is_shell(m) or len(m['blocks']) > 1):
@@ -550,6 +762,7 @@ def run(ctx):
         ctx.count('field:' + style + (':1d' if one_d else f':w{width}'))
         for sig, what, obs in fails:
             ctx.fail(sig, what, case, obs)
+        drain_arg_events(ctx, {k_: v for k_, v in case.items() if k_ != 'mesh'} | {'mesh': G.describe(m)})
         if real is not None and ctx.driver is not None:
             tie_n2e(ctx, m, fld, real, {k_: v for k_, v in case.items() if k_ != 'mesh'} | {'mesh': G.describe(m)})
         # ---- elemental -> nodal
@@ -564,6 +777,7 @@ def run(ctx):
             ctx.count('order1:explicit-incidence')
             for sig, what, obs in check_order1(m, fld, explicit=True):
                 ctx.fail(sig, what, {'check': 'order1', 'explicit': True, 'mesh': mj, 'field': field_json(fld)}, obs)
+            drain_arg_events(ctx, {'check': 'order1', 'mesh': G.describe(m), 'field': field_json(fld)})
             if ctx.driver is not None:
                 for ex in (False, True):
                     tie_order1(ctx, m, fld, ex, {'check': 'order1', 'explicit': ex, 'mesh': G.describe(m)})
@@ -593,6 +807,7 @@ def run(ctx):
         ctx.count('n2e:' + (err.split(':')[0] if err else 'ok') + ':absolute-scale')
         for sig, what, obs in fails:
             ctx.fail(sig, what, case, obs)
+        drain_arg_events(ctx, {k_: v for k_, v in case.items() if k_ != 'mesh'} | {'mesh': G.describe(m)})
     # ---- stream `repeated-nodes`: degenerate elements that list a node twice (collapsed hex = wedge / pyramid, collapsed quad =
     #      triangle), as structured mesh generators emit them; see ASSUMPTIONS
     for k in range(ctx.n(32, 240) if ctx.driver is not None else ctx.n(64, 480)):
@@ -603,6 +818,369 @@ def run(ctx):
         ctx.count('repeated-nodes:' + m['kind'] + (':all-metrics-positive' if positive else ':some-metric-not-positive (implicit weights skipped)'))
         combos = [('effective', 'none'), ('mean', 'false'), ('mean', 'explicit')] + ([('mean', 'implicit')] if positive else [])
         e2n_block(ctx, rng, m, G.to_json(m), k, ne >= 2, stream='repeated-nodes', combos=combos, tie=True)
+    # ---- stream `e2n-sequence`: several conversions on ONE object REUSING the same argument objects (incidence= matrix in
+    #      every sparse format / dtype, weight= array, data arrays), graded meshes (clearly unequal element sizes)
+    for k in range(ctx.n(77, 704) if ctx.driver is not None else ctx.n(154, 1408)):
+        sequence_case(ctx, rng, k)
+
+
+# ------------------------------------------------------------------------------------------ stream e2n-sequence
+
+SEQ_KINDS = ['tet', 'hex', 'shell:tri', 'shell:quad', 'tet2', 'mixed-nopyr', 'prism', 'shell:mixed']
+# how the documented `incidence=` argument is supplied: not at all (the object's lru-cached matrix is used), the very object
+# calculate_incidence_matrix() returned (= the cached one), or an own copy in every sparse format x dtype
+INC_KINDS = ['none', 'cached-object'] + [f'{f}:{d}' for d in ('bool', 'int64', 'float64') for f in ('csr', 'csc', 'coo')]
+SEQ_OPS = [('mean', 'implicit'), ('mean', 'explicit'), ('mean', 'false'), ('effective', 'none')]
+SEQ_PAIRS = [(a, b) for a in SEQ_OPS for b in SEQ_OPS]
+
+
+def graded(rng, m):
+    """image of the mesh under the projective map p -> c + (p - c) / (1 + a.(p - c)), coordinates rounded to multiples of 2^-24
+    (exact in binary64).  Where the denominator d is positive the map preserves orientation, lines and planes, so straight
+    positive elements stay positive; volumes change by the factor d^-4 (areas ~ d^-3) with d between 2/5 and 8/5 across the
+    mesh: element sizes become CLEARLY unequal (the generator meshes are affine images of uniform bricks)"""
+    used = {n for b in m['blocks'].values() for _, c in b for n in c}
+    P = [p for i, p in m['nodes'] if i in used]
+    lo = [min(p[k] for p in P) for k in range(3)]
+    hi = [max(p[k] for p in P) for k in range(3)]
+    c = [(lo[k] + hi[k]) / 2 for k in range(3)]
+    half = [(hi[k] - lo[k]) / 2 for k in range(3)]
+    axes = [k for k in range(3) if half[k] > 0]
+    parts = [rng.randint(1, 4) for _ in axes]
+    a = [F(0)] * 3
+    for k, t in zip(axes, parts):
+        a[k] = rng.choice([-1, 1]) * F(3, 5) * F(t, sum(parts)) / half[k]
+    q = 2 ** 24
+
+    def f(p):
+        d = 1 + sum(a[k] * (p[k] - c[k]) for k in range(3))
+        return tuple(F(round((c[k] + (p[k] - c[k]) / d) * q), q) for k in range(3))
+    out = dict(m)
+    out['nodes'] = [(i, f(p) if i in used else p) for i, p in m['nodes']]
+    out['graded'] = True
+    return out
+
+
+def gen_graded_mesh(rng, kind):
+    if kind == 'tet2':
+        m0 = G.gen_geometric(rng, kind='tet', max_cells=2)
+        mg = graded(rng, m0)
+        tm = true_metrics(mg)
+        if tm is None or not all(v > 0 for v in tm.values()):
+            mg = m0
+        return G.promote_tet2(rng, mg), None
+    m0 = gen_mesh(rng, kind)
+    mg = graded(rng, m0)
+    tm = true_metrics(mg)
+    if tm is None or not all(v > 0 for v in tm.values()):
+        return m0, None               # (never observed) a jittered cell turned over: keep the ungraded mesh
+    return mg, tm
+
+
+def gen_sequence(rng, k):
+    """the JSON-able description of one case of the stream (= the replay input)"""
+    kind = SEQ_KINDS[k % len(SEQ_KINDS)]
+    m, sizes = gen_graded_mesh(rng, kind)
+    fl = flat_elems(m)
+    ne, nn = len(fl), len(m['nodes'])
+    first = list(SEQ_PAIRS[(k + k // len(SEQ_PAIRS)) % len(SEQ_PAIRS)])
+    ops = first + [rng.choice(SEQ_OPS) for _ in range(rng.randint(0, 2))]
+    if 'pyr' in m['blocks']:        # calculate_element_metrics has no pyr branch (ASSUMPTIONS): explicit weights instead
+        ops = [(mode, 'explicit' if wk == 'implicit' else wk) for mode, wk in ops]
+    cols = sorted(rng.sample(range(ne), min(ne, 24, max(4, 16000 // (nn * ne)))))       # (cost of the exact model: ~ nn * ne * #columns)
+    fields = {'A': [[F(int(j == jj)) for jj in cols] for j in range(ne)],          # indicator columns: the weights themselves
+              'B': gen_field(rng, ne, rng.randint(1, 4), rng.choice(['dyadic', 'int', 'const']))}
+    seq = []
+    for mode, wk in ops:
+        seq.append([mode, wk, rng.choice(['A', 'A', 'B'])])
+        if rng.random() < .25 and len(m['blocks']) == 1:
+            seq.append(['n2e', 'none', 'N'])
+    int_w = rng.random() < .2
+    weights = [F(rng.randint(1, 64)) if int_w else F(rng.randint(1, 64), 8) for _ in range(ne)]
+    wdt = 'int64' if int_w else 'float64'
+    if sizes is not None and rng.random() < .2:
+        # weight= is the very array calculate_element_metrics() returned on this object (natural use; it may alias the stored
+        # `metric`): the sizes the weights must be proportional to are the true element sizes
+        wdt, weights = 'own-metrics', [F(sizes[e]) for e, _, _ in fl]
+    return m, sizes, {'check': 'e2n-sequence', 'mesh': G.to_json(m), 'incidence': INC_KINDS[k % len(INC_KINDS)],
+               'weights': [str(w) for w in weights], 'weights_dtype': wdt,
+               'fields': {n_: field_json(f_) for n_, f_ in fields.items()}, 'indicator_cols': cols,
+               'nodal_field': field_json(gen_field(rng, nn, rng.randint(1, 3), 'dyadic')), 'ops': seq}
+
+
+def build_incidence(fd, kind):
+    type(fd).calculate_incidence_matrix.cache_clear()
+    if kind == 'none':
+        return None
+    inc = G.quiet(fd.calculate_incidence_matrix)
+    if kind == 'cached-object':
+        return inc
+    fmt, dt = kind.split(':')
+    out = inc.astype(np.dtype(dt)).asformat(fmt)
+    return out.copy() if out is inc else out
+
+
+def seq_args(m, spec):
+    """a fresh object and freshly built argument objects for the sequence `spec`"""
+    fd = K.to_fem(m)
+    inc = build_incidence(fd, spec['incidence'])
+    if spec.get('weights_dtype') == 'own-metrics':
+        W = G.quiet(fd.calculate_element_metrics)
+    else:
+        W = np.array([[int(F(w)) if spec.get('weights_dtype') == 'int64' else float(F(w))] for w in spec['weights']],
+                     dtype=np.int64 if spec.get('weights_dtype') == 'int64' else float)
+    X = {n_: as_array(field_from_json(f_)) for n_, f_ in spec['fields'].items()}
+    X['N'] = as_array(field_from_json(spec['nodal_field']))
+    return fd, inc, W, X
+
+
+def seq_call(fd, inc, W, X, op):
+    mode, wk, fname = op
+    if mode == 'n2e':
+        return G.quiet(fd.convert_nodal2elemental, X['N'], calc_average=True)
+    kw = {}
+    if inc is not None:
+        kw['incidence'] = inc
+    if mode == 'mean' and wk == 'false':
+        kw['weight'] = False
+    elif mode == 'mean' and wk == 'explicit':
+        kw['weight'] = W
+    with np.errstate(all='ignore'):
+        return G.quiet(fd.convert_elemental2nodal, X[fname], mode=mode, **kw)
+
+
+def object_state(fd):
+    st = {'nodes.ids': np.asarray(fd.nodes.ids).tobytes(), 'nodes.data': np.asarray(fd.nodes.data).tobytes()}
+    for t, a in fd.elements.items():
+        st[f'elements[{t}].ids'] = np.asarray(a.ids).tobytes()
+        st[f'elements[{t}].data'] = np.asarray(a.data).tobytes()
+    return st
+
+
+def op_text(op):
+    return 'nodal->elemental' if op[0] == 'n2e' else f'{op[0]}/{op[1]} on field {op[2]}' if op[0] == 'mean' else f'effective on field {op[2]}'
+
+
+def run_sequence(m, spec, sizes=None):
+    """(ii): the calls of spec['ops'] on ONE FEMData object with ONE set of argument objects (no other femio call in between),
+    then - afterwards - every call again with freshly built arguments on a freshly built equal object.  Returns a dict:
+    fails (signature, what, observed), steps [(op, result of the sequence, fresh result)], events (modified arguments)"""
+    fl = flat_elems(m)
+    ne, nn = len(fl), len(m['nodes'])
+    ops = [list(o) for o in spec['ops']]
+    weights = [F(w) for w in spec['weights']]
+    fields = {n_: field_from_json(f_) for n_, f_ in spec['fields'].items()}
+    nodal = field_from_json(spec['nodal_field'])
+    fails, events = [], []
+
+    def shape(r, rows):
+        return np.array(r, dtype=float).reshape(rows, -1)          # a copy
+    # ---- the sequence
+    fd, inc, W, X = seq_args(m, spec)
+    W0 = [F(v.item()) for v in np.asarray(W).ravel()]
+    watch = Watch('sequence of conversions', incidence=inc, weight=W, **{'data_' + n_: x for n_, x in X.items()})
+    st0 = object_state(fd)
+    live, seq_res = [], []
+    k = 0
+    extended = False
+    while k < len(ops):
+        op = ops[k]
+        try:
+            r = seq_call(fd, inc, W, X, op)
+        except Exception as e:
+            fails.append((f'sequence:raises:{type(e).__name__}', f'call #{k + 1} ({op_text(op)}) of a sequence of conversions on one object '
+                          f'raised {type(e).__name__}: {e}', {'call': k + 1, 'op': op, 'previous': ops[:k]}))
+            ops = ops[:k]
+            break
+        live.append(r)
+        seq_res.append(shape(r, ne if op[0] == 'n2e' else nn))
+        evs = watch.check(f'after call #{k + 1} ({op_text(op)})')
+        st1 = object_state(fd)
+        for name in st0:
+            if st0[name] != st1.get(name):
+                ev = ('sequence of conversions', 'object:' + name, 'value', {'when': f'after call #{k + 1} ({op_text(op)})'})
+                ARG_EVENTS.append(ev)
+                evs.append(ev)
+        st0 = st1
+        events += evs
+        k += 1
+        if k == len(ops) and not extended and any(e[2] == 'value' for e in evs):
+            # an argument was modified by the LAST call: what that does to the property shows on the next calls
+            extended = True
+            ops += [['mean', 'explicit', 'A'], ['effective', 'none', 'A'], ['mean', 'false', 'A']] \
+                + ([['n2e', 'none', 'N']] if len(m['blocks']) == 1 else [])
+    final = None
+    try:
+        inc_obj = inc if inc is not None else G.quiet(fd.calculate_incidence_matrix)      # 'none': the lru-cached matrix the calls used
+        ri, ci, di = _canon_sparse(inc_obj)
+        final = {'incidence': [(int(a_), int(b_), F(float(d_)) if not isinstance(d_, (bool, np.bool_)) else F(int(d_)))
+                               for a_, b_, d_ in zip(ri, ci, di)],
+                 'weight': [F(v.item()) for v in W.ravel()],
+                 'data': {n_: [[F(v.item()) for v in row] for row in np.asarray(x).reshape(len(x), -1)] for n_, x in X.items()}}
+    except Exception as e:      # the objects can no longer be read: the snapshot comparison has reported it
+        final = {'error': repr(e)}
+    live_changed = [k_ for k_, (r, s_) in enumerate(zip(live, seq_res))
+                    if np.array(r, dtype=float).reshape(s_.shape).tobytes() != s_.tobytes()]
+    # ---- afterwards: every call on fresh objects, the sizes for the implicit weights
+    if sizes is None and any(o[:2] == ['mean', 'implicit'] for o in ops):
+        sizes = true_metrics(m)
+    steps = []
+    for k, op in enumerate(ops):
+        when = (f'call #{k + 1} of {len(ops)} on one object, argument objects reused (incidence={spec["incidence"]}); earlier calls: '
+                + ('none' if k == 0 else ', '.join(op_text(o) for o in ops[:k])))
+        suffix = ':after-earlier-calls' if k else ''
+        try:
+            fd2, inc2, W2, X2 = seq_args(m, spec)
+            fr = shape(seq_call(fd2, inc2, W2, X2, op), ne if op[0] == 'n2e' else nn)
+        except Exception as e:
+            fails.append((f'sequence:raises:{type(e).__name__}', f'{op_text(op)} on a fresh object raised {type(e).__name__}: {e}',
+                          {'op': op}))
+            fr = None
+        r = seq_res[k]
+        if op[0] == 'n2e':
+            ids = [e for e, _, _ in fl]
+            fs = n2e_laws(m, ids, r, nodal, None, when)
+            rows, tolk = nodal, TOL
+        else:
+            rows = fields[op[2]]
+            own = spec.get('weights_dtype') == 'own-metrics'
+            fs = e2n_laws(m, rows, op[0], op[1], weights, r, sizes=sizes, cols=spec['indicator_cols'] if op[2] == 'A' else None,
+                          metric_weights=own)
+            tolk = 2e-5 if ((op[1] == 'implicit' or (own and op[1] == 'explicit'))
+                            and any(t in ('hex', 'prism', 'pyr') for t in m['blocks'])) else TOL
+        for sig, what, obs in fs:
+            fails.append((sig + suffix, what + ' [' + when + ']', dict(obs, call=k + 1, op=op)))
+        sc = max([1.0] + [abs(float(v)) for row in rows for v in row])
+        if fr is not None and fr.shape == r.shape:
+            d = np.abs(fr - r)
+            d = float(np.nanmax(d)) if d.size else 0.0
+            same_nan = np.array_equal(np.isnan(fr), np.isnan(r))
+            if not same_nan or d > 2 * tolk * sc:
+                # both results obey the clause within the tolerance only if they agree within twice the tolerance
+                name = 'n2e' if op[0] == 'n2e' else f'e2n-{op[0]}' + (f':{op[1]}' if op[0] == 'mean' else '')
+                fails.append((f'{name}:depends-on-earlier-calls',
+                              f'{op_text(op)}: the result differs from the result of the same call with equal, freshly built arguments '
+                              f'on an equal, freshly built object [{when}]',
+                              {'call': k + 1, 'op': op, 'max_abs_difference': d, 'field_scale': sc}))
+        if k in live_changed:
+            fails.append(('sequence:returned-array-changed-by-a-later-call',
+                          f'the array returned by call #{k + 1} ({op_text(op)}) was changed by a later conversion', {'call': k + 1, 'op': op}))
+        steps.append((op, r, fr))
+    return {'fails': fails, 'steps': steps, 'events': events, 'ops': ops, 'sizes': sizes, 'final': final, 'W0': W0}
+
+
+def sequence_case(ctx, rng, k):
+    m, sizes, spec = gen_sequence(rng, k)
+    fl = flat_elems(m)
+    ne = len(fl)
+    res = run_sequence(m, spec, sizes)
+    small = {k_: v for k_, v in spec.items() if k_ not in ('mesh', 'fields', 'nodal_field')} | {'mesh': G.describe(m)}
+    ctx.count('e2n-sequence:incidence=' + spec['incidence'])
+    ctx.count('e2n-sequence:mesh:' + m['kind'] + (':graded' if m.get('graded') or m['kind'] == 'tet2' else ':not-graded'))
+    if res['sizes']:
+        v = sorted(res['sizes'].values())
+        ctx.count('e2n-sequence:size-ratio(max/min):' + ('<1.5' if v[-1] < 1.5 * v[0] else '<4' if v[-1] < 4 * v[0] else '>=4'))
+    ctx.count('e2n-sequence:weights-dtype:' + spec['weights_dtype'])
+    for sig, what, obs in res['fails']:
+        ctx.fail(sig, what, spec, obs)
+    drain_arg_events(ctx, small)
+    prev = None
+    for j, (op, r, fr) in enumerate(res['steps']):
+        ctx.case(('e2n-sequence', k, j, tuple(op), spec['incidence']),
+                 sample={'check': 'e2n-sequence', 'mesh': G.describe(m), 'incidence': spec['incidence'], 'ops': spec['ops']}
+                 if ctx.dist.get('e2n-sequence:calls', 0) == 0 else None, nontrivial=ne >= 2)
+        ctx.count('e2n-sequence:calls')
+        ctx.count(f'e2n-sequence:call:{op[0]}:{op[1]}' + (':first' if j == 0 else ':later'))
+        if prev is not None and op[0] != 'n2e':
+            ctx.count(f'e2n-sequence:pair:{prev[0]}/{prev[1]}->{op[0]}/{op[1]}')
+        if op[0] != 'n2e':
+            prev = op
+        if fr is not None and fr.shape == r.shape and fr.tobytes() != r.tobytes():
+            ctx.count('e2n-sequence:not-bit-identical-to-the-fresh-call (within tolerance)')
+        if ctx.driver is None:
+            continue
+        if op[0] == 'n2e':
+            tie_n2e(ctx, m, field_from_json(spec['nodal_field']), dict(zip([e for e, _, _ in fl], r.tolist())),
+                    small | {'call': j + 1, 'op': op})
+    if ctx.driver is not None:
+        tie_history(ctx, m, spec, res, small)
+
+
+def tie_history(ctx, m, spec, res, small):
+    """model tie of one sequence: `e2nHistory` (Model/Convert.lean) is run by the driver on all elemental -> nodal calls of the
+    sequence (as many columns per call as the cost of the exact evaluation allows; the model converts column by column).  Compared:
+    every returned column with the real result of that call, and the argument objects the MODEL returns at the end of the history
+    (theorem C14_history_fresh: the incidence object, the weights and the data are unchanged) with the LIVE Python objects after
+    the real sequence, value by value (exact rationals)."""
+    fl = flat_elems(m)
+    ne, nn = len(fl), len(m['nodes'])
+    fields = {n_: field_from_json(f_) for n_, f_ in spec['fields'].items()}
+    weights = res['W0']             # what femio was given (own-metrics: the array calculate_element_metrics returned)
+    sized = None if res['sizes'] is None else [F(res['sizes'][e]) for e, _, _ in fl]
+    calls, meta = [], []
+    for j, (op, r, fr) in enumerate(res['steps']):
+        if op[0] == 'n2e':
+            continue
+        fld = fields[op[2]]
+        ncol = max(1, min(len(fld[0]), 12000 // (nn * ne * (max(1, nn // 8) if op[0] == 'effective' else 1))))
+        implicit_as_explicit = op[1] == 'implicit' and (K.is_shell(m) or len(m['blocks']) > 1)
+        if implicit_as_explicit:
+            ctx.count('tie:implicit-as-explicit')
+        wk, ws = ((0, []) if op[0] == 'effective' or op[1] == 'false' else (1, sized) if implicit_as_explicit
+                  else (1, weights) if op[1] == 'explicit' else (2, []))
+        for c in [(c_ * len(fld[0])) // ncol for c_ in range(ncol)]:
+            calls.append(f"{op[0]} {wk} {C.enc_list(ws, C.enc_rat)} {C.enc_list([row[c] for row in fld], C.enc_rat)}")
+            meta.append((j, op, c, wk == 1 and not implicit_as_explicit))
+    if not calls:
+        return
+    rep = ctx.driver.ask(f'c14.hist {G.enc_mesh(m)} {len(calls)} ' + ' '.join(calls))
+    if rep == 'ok nometric':
+        ctx.count('model:nometric')
+        return
+    t = C.Toks(rep)
+    if t.tok() != 'ok':
+        raise RuntimeError('driver: ' + rep[:200])
+    ctx.count('tie:history')
+    cols = t.lst(lambda: t.lst(t.rat))
+    pairs = t.lst(lambda: (t.nat(), t.nat()))
+    after = t.lst(lambda: (t.lst(t.rat), t.lst(t.rat)))
+    for (j, op, c, _), col in zip(meta, cols):
+        r = res['steps'][j][1]
+        fld = fields[op[2]]
+        sc = max([1.0] + [abs(float(v)) for row in fld for v in row])
+        # float32: the implicit weights of hex / prism / pyr come from float32 kernels, and so does weight= when it is the array
+        # calculate_element_metrics() returned (own-metrics): femio then weights and normalises in float32 (bool x float32)
+        f32 = (op[1] == 'implicit' or (op[1] == 'explicit' and spec.get('weights_dtype') == 'own-metrics')) \
+            and any(ty in ('hex', 'prism', 'pyr') for ty in m['blocks'])
+        tol = (2e-5 if f32 else TOL) * sc
+        bad = [k for k in range(nn) if not abs(float(col[k]) - r[k, c]) <= tol] if len(col) == nn else [0]
+        if bad:
+            k = bad[0]
+            ctx.disagree(f'convert_elemental2nodal mode={op[0]} weight={op[1]} (call #{j + 1} of a history on one object)',
+                         small | {'call': j + 1, 'op': op, 'column': c},
+                         {'node': m['nodes'][k][0], 'value': None if r[k, c] != r[k, c] else float(r[k, c])}, float(col[k]) if len(col) == nn else None)
+            break
+    # the argument objects at the end: model (unchanged, C14_history_fresh) vs the live objects
+    fin = res['final']
+    if fin is None or 'error' in fin:
+        ctx.disagree('arguments after the history: the live argument objects cannot be read', small, fin, 'unchanged')
+        return
+    live_inc = sorted((a_, b_) for a_, b_, _ in fin['incidence'])
+    if live_inc != sorted(pairs) or any(v != 1 for _, _, v in fin['incidence']):
+        wrong = [(a_, b_, float(v)) for a_, b_, v in fin['incidence'] if v != 1][:3]
+        ctx.disagree(f'arguments after the history: the incidence object (incidence={spec["incidence"]}) is no longer the Boolean '
+                     'incidence matrix (model: e2nHistory returns the incidence object unchanged)', small,
+                     {'stored_entries': len(live_inc), 'entries_not_equal_to_one': wrong}, {'stored_entries': len(pairs), 'all_values': 1})
+    for (j, op, c, w_is_W), (ws_after, col_after) in zip(meta, after):
+        live_col = [row[c] for row in fin['data'][op[2]]]
+        if col_after != live_col:
+            ctx.disagree('arguments after the history: a data array differs from what the model returns (unchanged)', small
+                         | {'call': j + 1, 'op': op, 'column': c}, [float(v) for v in live_col][:8], [float(v) for v in col_after][:8])
+            break
+        if w_is_W and ws_after != fin['weight']:
+            ctx.disagree('arguments after the history: the weight array differs from what the model returns (unchanged)', small
+                         | {'call': j + 1, 'op': op}, [float(v) for v in fin['weight']][:8], [float(v) for v in ws_after][:8])
+            break
 
 
 def gen_degenerate(rng, k):
@@ -656,6 +1234,7 @@ def history_case(ctx, rng, k, kind):
         ctx.count('n2e-history:new-values:' + ('same-as-old' if fld1 == fld2 else 'different'))
     for sig, what, obs in fails:
         ctx.fail(sig, what, case, obs)
+    drain_arg_events(ctx, {k_: v for k_, v in case.items() if k_ != 'mesh'} | {'mesh': G.describe(m)})
     if real2 is not None and ctx.driver is not None:
         small = {k_: v for k_, v in case.items() if k_ != 'mesh'} | {'mesh': G.describe(m)}
         tie_n2e(ctx, m, fld1, real1, small | {'step': 'first conversion'})
@@ -666,6 +1245,15 @@ def replay(ctx, obj):
     case = obj['input']
     m = G.from_json(case['mesh'])
     m['blocks'] = {t: m['blocks'][t] for t in G.ELEMENT_TYPES if t in m['blocks']}
+    if case['check'] == 'e2n-sequence':
+        res = run_sequence(m, case)
+        evs = list(ARG_EVENTS)
+        del ARG_EVENTS[:]
+        return {'case': {k: v for k, v in case.items() if k not in ('mesh', 'fields', 'nodal_field')}, 'error': None,
+                'calls': [{'op': op, 'max_abs_difference_to_fresh_call': None if fr is None or fr.shape != r.shape or not r.size
+                           else float(np.nanmax(np.abs(fr - r)))} for op, r, fr in res['steps']],
+                'arguments_modified': [{'argument': a, 'kind': kd, 'detail': d} for _, a, kd, d in evs],
+                'failures': [{'signature': s_, 'what': w_, 'observed': o} for s_, w_, o in res['fails']], 'fails': bool(res['fails'])}
     fld = field_from_json(case['field'])
     if case['check'] == 'n2e-history':
         aff = case.get('affine2')
@@ -682,6 +1270,7 @@ def replay(ctx, obj):
     else:
         wk = case['weights_kind']
         w = None if case.get('weights') is None else [F(x) for x in case['weights']]
-        fails, real, err = check_e2n(m, fld, case['mode'], wk, w, case.get('one_d', False), case.get('incidence'))
+        fails, real, err = check_e2n(m, fld, case['mode'], wk, w, case.get('one_d', False), case.get('incidence'),
+                                     case.get('indicator_cols'))
     return {'case': {k: v for k, v in case.items() if k not in ('mesh', 'field')}, 'error': err,
             'failures': [{'signature': s, 'what': w_, 'observed': o} for s, w_, o in fails], 'fails': bool(fails)}
